@@ -257,6 +257,7 @@ func cliPart(r *mon.Run) {
 	namePart(r, e)
 	skipPart(r, e)
 	mixedPart(r, e)
+	commentPart(r, e)
 	if r.Counter("cli_runs") < 300 {
 		r.Inconclusive("CLI part ran only %d processes", r.Counter("cli_runs"))
 	}
